@@ -94,6 +94,21 @@ def own_idset(ctx, r):
                     if "Occupied" in q.show_pat(a["pat"]):
                         stores = any(x["k"] == "MethodCall" and x["m"] in ("push", "insert") and q.show(x["recv"]).startswith("self.id_to_ptr") for x in q.walk(a["body"]))
                         r.ob(not stores, "id_set.rs:insert:duplicate-path-stores-pointer", IDSET, a["l"], "the duplicate path must not record the pointer of the popped value")
+    # (3b) membership, id and size queries answer from the index tables only: insert() swaps in a fresh buffer before it
+    #      knows whether the value is a duplicate, so the occupancy of the storage buffers says nothing about membership
+    nq = 0
+    for f in q.find_fns(items, impl_ty="IdSet"):
+        ret = (f.get("ret") or "").replace(" ", "")
+        recv = next((p for p in f["params"] if p.get("self")), None)
+        is_query = recv is not None and "mut" not in q.show(recv) if isinstance(recv, dict) and "k" in recv else (recv is not None and not recv.get("mut"))
+        if f.get("body") is None or not is_query or ret not in ("bool", "usize", "u32", "Option<u32>"):
+            continue
+        nq += 1
+        reads = sorted({x["f"] for x in q.walk(f["body"]) if x["k"] == "Field" and q.show(x["e"]) == "self" and x["f"] in buf_fields})
+        r.ob(not reads, f"id_set.rs:{f['name']}:query-reads-storage-buffer", IDSET, f["l"],
+             f"{f['name']} decides from the storage buffer(s) {reads}: after a duplicate insert that arrived at a full buffer the live buffer is empty although the set is not, so the answer disagrees with the map-plus-vector model",
+             sample=f"{f['name']}: answers from the index tables only")
+    r.count("membership / id / size queries", nq, 4, IDSET)
     # (4) nothing public exposes a pointer or a field
     for fl in st["fields"]:
         r.ob(fl["vis"] == "", f"id_set.rs:IdSet.{fl['name']}:public-field", IDSET, fl["l"], f"field {fl['name']} is `{fl['vis']}`: internal buffers/pointers must be private")
@@ -121,6 +136,27 @@ def arena_bounds(ctx, r):
     sw = swaps[0]
     c = q.show(sw["c"]).replace(" ", "")
     r.ob("current_buf.len()" in c and (">" in c), "arena.rs:alloc:bounds-check", ARENA, sw["l"], f"the buffer is switched under `{c}`: it must compare the end of the new allocation with the length of the current buffer", sample=f"alloc: switch iff {c}")
+    # the comparison must bound the very extent that is written: every additive term of `start` and the size
+    def terms(e):
+        while e["k"] == "Paren":
+            e = e["e"]
+        if e["k"] == "Binary" and e["op"] == "+":
+            return terms(e["a"]) | terms(e["b"])
+        return {q.show(e).replace(" ", "")}
+
+    cmpn = sw["c"]
+    while cmpn["k"] == "Paren":
+        cmpn = cmpn["e"]
+    start_l = [x for x in q.walk(f["body"]) if x["k"] == "Local" and q.pat_bindings(x["pat"]) == ["start"] and x.get("init") is not None]
+    if cmpn["k"] == "Binary" and cmpn["op"] in (">", ">=") and start_l:
+        need = terms(start_l[0]["init"]) | {"size"}
+        have = terms(cmpn["a"])
+        missing = sorted(need - have)
+        r.ob(not missing, "arena.rs:alloc:bounds-check-omits-a-term", ARENA, sw["l"],
+             f"the value is written at [{q.show(start_l[0]['init'])}, .. + size) but the buffer is switched only when `{q.show(cmpn['a'])}` exceeds the length: {missing} is not counted, so a value that fits without it is written up to that many bytes past the end of the buffer",
+             sample=f"alloc: bounds check covers {sorted(need)}")
+    else:
+        r.missing("alloc:bounds comparison / start", ARENA)
     resets = [x for x in q.walk(sw["t"]) if x["k"] == "Assign" and q.show(x["a"]).endswith(".offset")]
     r.ob(bool(resets) and q.show(resets[0]["b"]) == "0", "arena.rs:alloc:offset-not-reset-on-buffer-switch", ARENA, sw["l"],
          "after replacing current_buf the write offset still counts from the old buffer: the bounds check above was made against the old length, so the write lands past the end of the new buffer when the allocation is larger than the previous buffer (a u8 then a u64 on an empty arena)",
@@ -174,4 +210,11 @@ def arena_align(ctx, r):
     swaps = [x for x in q.walk(f["body"]) if x["k"] == "If" and any(z["k"] == "Call" and q.show(z["f"]).endswith("mem::replace") for z in q.walk(x["t"]))]
     if swaps:
         re_pad = any(x["k"] == "Assign" and q.show(x["a"]) == "padding" for x in q.walk(swaps[0]["t"]))
+        # or computed only once, after the switch, against the buffer the value lands in
+        stmts = f["body"]["stmts"]
+        si = next((i for i, s_ in enumerate(stmts) if any(y is swaps[0] for y in q.walk(s_))), None)
+        if si is not None:
+            pads = [i for i, s_ in enumerate(stmts) if s_["k"] == "Local" and "padding" in q.pat_bindings(s_["pat"])]
+            if pads and all(i > si for i in pads):
+                re_pad = True
         r.ob(re_pad or aligned_alloc, "arena.rs:alloc:padding-not-recomputed", ARENA, swaps[0]["l"], "after switching to a new buffer (a different base address) the padding must be recomputed", sample="alloc: padding recomputed for the new buffer")
